@@ -4,6 +4,7 @@ import (
 	"bytes"
 	"encoding/binary"
 	"fmt"
+	"github.com/basecomplextech/spec"
 	"io"
 
 	"github.com/basecomplextech/baselibrary/alloc"
@@ -65,6 +66,45 @@ var c11handshakes = []c11hs{
 		return append([]byte(ProtocolLine), vFrame4(vMsgBytes(vOpen(bin.Int128(0, 5), []byte("hx"), 1024)))...)
 	}, false, false, false},
 	{"first-frame-garbage", func() []byte { return append([]byte(ProtocolLine), vFrame4([]byte{0xff, 0xfe, 0x01, 0x50})...) }, false, false, false},
+	// a well-formed connect_request sub-message under another message code: still "anything else first"
+	{"request-under-code-open", func() []byte { return append([]byte(ProtocolLine), vConnectReqCode(pmpx.Code_ChannelOpen, true)...) }, false, false, false},
+	{"request-under-code-response", func() []byte {
+		return append([]byte(ProtocolLine), vConnectReqCode(pmpx.Code_ConnectResponse, true)...)
+	}, false, false, false},
+	{"request-under-code-batch", func() []byte { return append([]byte(ProtocolLine), vConnectReqCode(pmpx.Code_Batch, true)...) }, false, false, false},
+	{"request-under-code-undefined", func() []byte { return append([]byte(ProtocolLine), vConnectReqCode(pmpx.Code_Undefined, true)...) }, false, false, false},
+	{"request-under-unknown-code-77", func() []byte { return append([]byte(ProtocolLine), vConnectReqCode(pmpx.Code(77), true)...) }, false, false, false},
+	{"request-without-code-field", func() []byte { return append([]byte(ProtocolLine), vConnectReqCode(0, false)...) }, false, false, false},
+	{"request-code-without-request-field", func() []byte {
+		w := spec.NewMessageWriter()
+		w.Field(1).Int32(int32(pmpx.Code_ConnectRequest))
+		b, err := w.Build()
+		if err != nil {
+			panic(err)
+		}
+		return append([]byte(ProtocolLine), vFrame4(append([]byte{}, b...))...)
+	}, false, false, false},
+}
+
+// vConnectReqCode: a message whose field 2 is a valid connect_request (version 1.0) but whose code field is c
+// (or absent).
+func vConnectReqCode(c pmpx.Code, withCode bool) []byte {
+	valid, err := pmpx.BuildConnectRequest(pmpx.ConnectInput{Versions: []pmpx.Version{10}})
+	if err != nil {
+		panic(err)
+	}
+	w := spec.NewMessageWriter()
+	if withCode {
+		w.Field(1).Int32(int32(c))
+	}
+	if err := w.Field(2).Any(valid.Unwrap().FieldRaw(2)); err != nil {
+		panic(err)
+	}
+	b, err := w.Build()
+	if err != nil {
+		panic(err)
+	}
+	return vFrame4(append([]byte{}, b...))
 }
 
 type c11frame struct {
